@@ -67,6 +67,34 @@ Theorem qr_c01_blocks bits vi l :
   exists data, codewords_of_bits bits vi = Ok data /\ blocks_facts (vi_version vi) l bits data.
 Proof. apply codewords_of_bits_spec. exact rs_holds. Qed.
 
+(* the bytes the block splitter receives are the byte view of the boolean-sequence
+   specification of the BitList (theorem C18: GetBytes / IterateBytes = pack8) *)
+Theorem qr_c01_bitlist_bytes bits : (exists n, length bits = (8 * n)%nat) ->
+  bytes_of_bits bits = pack8 bits.
+Proof. intros [n Hn]. apply bytes_of_bits_pack8. apply (octets_of_length n). exact Hn. Qed.
+
+(* layer 3, general forms: de-interleaving inverts interleaving for an arbitrary block
+   structure (n1 blocks of k1 data codewords, n2 blocks of k1+1, e check codewords each;
+   r = 1 extra pass iff there is a second group); writing bits at a duplicate-free list of
+   in-range cells and unmasking reads them back and disturbs no other cell *)
+Theorem qr_c01_interleave (g1 g2 : list (list Z * list Z)) (k1 : nat) (e : Z) (r : nat) layout :
+  Forall (good_block k1 e) g1 -> Forall (good_block (S k1) e) g2 ->
+  (g2 = [] /\ r = 0%nat) \/ r = 1%nat ->
+  0 <= e ->
+  bl_e layout = e -> bl_n1 layout = Z.of_nat (length g1) -> bl_k1 layout = Z.of_nat k1 ->
+  bl_n2 layout = Z.of_nat (length g2) ->
+  forall ecs, interleave_ecc (Z.to_nat e) (map snd (g1 ++ g2)) = Ok ecs ->
+  deinterleave layout (interleave_data (k1 + r) (map fst (g1 ++ g2)) ++ ecs) = g1 ++ g2.
+Proof. apply deinterleave_interleave. Qed.
+
+Theorem qr_c01_placement dim order bits mask m :
+  qm_dim m = dim -> Forall (in_range dim) order -> NoDup (map (cell_key dim) order) ->
+  exists m', place_bits order bits mask m = Ok m' /\ qm_dim m' = dim
+    /\ (forall q, ~ In (cell_key dim q) (map (cell_key dim) order) -> peek m' q = peek m q)
+    /\ map (fun p => xorb (peek m' p) (mask_bit mask (fst p) (snd p))) order
+       = take_pad (length order) bits.
+Proof. apply place_bits_spec. Qed.
+
 (* layer 4: the composition *)
 Theorem qr_c01_roundtrip content level mode mask bc :
   is_bytes content -> valid_encoding mode -> 0 <= mask < 8 ->
